@@ -55,29 +55,73 @@ class Abort(BaseException):
 
 # ---------------------------------------------------------------------------------------------------
 # operands and arithmetic
+def make_operand(desc):
+    """desc = ["p", lo[], hi[]] | ["d", intervals, masses] | ["D", family, params] | ["v", lo, hi]"""
+    C, P, O = _repo()
+    k = desc[0]
+    if k == "p":
+        return P.Staircase(left=list(desc[1]), right=list(desc[2]))
+    if k == "d":
+        from pyuncertainnumber.pba.dss import DempsterShafer
+        return DempsterShafer(intervals=[list(i) for i in desc[1]], masses=list(desc[2]))
+    if k == "D":
+        from pyuncertainnumber.pba.distributions import Distribution
+        return Distribution(desc[1], tuple(desc[2]))
+    if k == "v":
+        from pyuncertainnumber.pba.intervals.number import Interval
+        return Interval(desc[1], desc[2])
+    raise KeyError(k)
+
+
+# operands that are not p-boxes but dependency-sensitive: every method converts them with convert_pbox
+OTHER_KINDS = [["d", [[2, 3], [2.5, 5], [4, 6]], [0.2, 0.5, 0.3]], ["D", "uniform", [2, 3]], ["v", 2, 5],
+               ["d", [[1, 2], [1.5, 2.5], [3, 5]], [0.5, 0.25, 0.25]], ["D", "gaussian", [6, 0.5]]]
+
+
 class Pool:
-    def __init__(self, rng, n_extra=2):
+    def __init__(self, rng, n_extra=2, desc=None):
         C, P, O = _repo()
-        S = P.Staircase
-        base = [([1, 2, 3], [2, 3, 5]), ([2, 2.5, 4], [3, 5, 6])]
-        for _ in range(n_extra):
-            k = rng.choice([2, 3, 4])
-            lo = sorted(rng.choice([1, 1.5, 2, 2.5, 3, 4]) for _ in range(k))
-            hi = sorted(l + rng.choice([0.5, 1, 1.5, 2]) for l in lo)
-            base.append((lo, hi))
-        self.desc = base
-        self.box = [S(left=l, right=r) for l, r in base]
+        if desc is None:
+            base = [([1, 2, 3], [2, 3, 5]), ([2, 2.5, 4], [3, 5, 6])]
+            for _ in range(n_extra):
+                k = rng.choice([2, 3, 4])
+                lo = sorted(rng.choice([1, 1.5, 2, 2.5, 3, 4]) for _ in range(k))
+                hi = sorted(l + rng.choice([0.5, 1, 1.5, 2]) for l in lo)
+                base.append((lo, hi))
+            desc = [["p", l, r] for l, r in base] + OTHER_KINDS
+        self.desc = desc
+        self.kind = [d[0] for d in desc]
+        self.obj = [make_operand(d) for d in desc]
+        # `box` = the operand converted to a p-box (what every method does first), built in an empty Context
+        self.box = [contextvars.Context().run(P.convert_pbox, o) for o in self.obj]
         self._explicit = {}
         self._low = {}
-        # operand pairs on which the four dependencies give four different results for every operator
+        # p-box pairs on which the four dependencies give four different results for every operator
         self.pairs = []
-        for xi in range(len(self.box)):
-            for yi in range(len(self.box)):
+        pb = [i for i, k in enumerate(self.kind) if k == "p"]
+        for xi in pb:
+            for yi in pb:
                 if xi != yi and all(len({self.explicit(op, xi, yi, d) for d in KNOWN}) == 4 for op in OPS):
                     self.pairs.append((xi, yi))
         self.distinguishing = bool(self.pairs)
         if not self.pairs:      # the code under test no longer separates the four dependencies: still run
-            self.pairs = [(xi, yi) for xi in range(len(self.box)) for yi in range(len(self.box)) if xi != yi]
+            self.pairs = [(xi, yi) for xi in pb for yi in pb if xi != yi]
+        # pairs with an operand that is not a p-box: left in {p, d, D}, right in {p, d, D, v}; (v, p) for + - * only
+        self.kpairs = []
+        for xi, kx in enumerate(self.kind):
+            for yi, ky in enumerate(self.kind):
+                if xi == yi or (kx == "p" and ky == "p"):
+                    continue
+                if kx in "pdD" and (xi in pb[:2] or kx != "p") and (yi in pb[:2] or ky != "p"):
+                    self.kpairs.append((xi, yi))
+                elif kx == "v" and ky == "p" and yi in pb[:2]:
+                    self.kpairs.append((xi, yi))
+
+    def kk(self, xi, yi):
+        return self.kind[xi] + self.kind[yi]
+
+    def ops_for(self, xi, yi):
+        return ["add", "sub", "mul"] if self.kind[xi] == "v" else BARE
 
     @staticmethod
     def digest(r):
@@ -85,7 +129,7 @@ class Pool:
 
     def bare(self, op, xi, yi):
         """the bare operator, in the CALLER's context"""
-        x, y = self.box[xi], self.box[yi]
+        x, y = self.obj[xi], self.obj[yi]
         try:
             if op == "add": r = x + y
             elif op == "sub": r = x - y
@@ -117,6 +161,23 @@ class Pool:
                     return ("err", err_kind(e))
             self._explicit[key] = contextvars.Context().run(call)
         return self._explicit[key]
+
+    def explicit_inside(self, op, xi, yi, code_tok, ambient_tok):
+        """the explicit method with dependency=code, called inside `with dependency(ambient)` (caller's context)"""
+        C, P, O = _repo()
+        x, y, d = self.box[xi], self.box[yi], PYVAL[code_tok]
+        try:
+            with C.dependency(PYVAL[ambient_tok]):
+                if op in ("add", "sub", "mul", "div", "pow"): r = getattr(x, op)(y, d)
+                elif op == "radd": r = y.add(x, d)
+                elif op == "rmul": r = y.mul(x, d)
+                else: r = (-y).add(x, d)
+            return self.digest(r)
+        except Exception as e:
+            return ("err", err_kind(e))
+
+    def snapshot(self):
+        return [self.digest(b) for b in self.box] + [self.digest(o) for o, k in zip(self.obj, self.kind) if k == "p"]
 
     def lowlevel(self, xi, yi, call):
         """run the routine the model names: call = 'fam,a,b,branch'"""
@@ -159,6 +220,20 @@ class Pool:
 # ---------------------------------------------------------------------------------------------------
 # programs.  item := ("get",) | ("arith", op, xi, yi) | ("spawn", child) | ("gopen", code) | ("gcloseat", k)
 #                  | ("block", code, how, body, prop)
+MEXIT_TOKEN = {"with": "X", "withraise": "R", "dunder": "X", "dunderexc": "R", "stack": "X", "deco": "X"}
+SYNC_MHOWS = ["with", "withraise", "dunder", "dunderexc", "stack", "deco"]
+ASYNC_MHOWS = ["with", "withraise", "dunder", "dunderexc", "stack"]
+
+
+def body_of(it):
+    """the list of items executed inside a block-like item (None for atoms)"""
+    if it[0] in ("block", "mblock"):
+        return it[3]
+    if it[0] == "mstack":
+        return it[2]
+    return None
+
+
 def flatten(prog, kinds):
     """event tokens of one actor, in the order the interpreter takes its turns"""
     out = []
@@ -167,14 +242,35 @@ def flatten(prog, kinds):
         for it in items:
             k = it[0]
             if k == "get": out.append("G")
-            elif k == "arith": out.append("A:" + it[1])
+            elif k == "arith":
+                op = "powD" if (it[1] == "pow" and len(it) > 4 and it[4][0] == "D") else it[1]
+                out.append("A:" + op + (":" + it[4] if len(it) > 4 else ""))
             elif k == "spawn": out.append(("T:" if kinds[it[1]] in ("thread", "loop") else "K:") + str(it[1]))
             elif k == "gopen": out.append("E:" + it[1])
             elif k == "gcloseat": out.append("N:%d" % it[1])
+            elif k == "build": out.append("B:%d:%s" % (it[1], it[2]))
+            elif k == "mblock":
+                out.append("M:%d" % it[1]); go(it[3]); out.append(MEXIT_TOKEN[it[2]])
+            elif k == "mstack":
+                out.extend("M:%d" % m for m in it[1]); go(it[2]); out.extend("X" for _ in it[1])
             else:
                 out.append("E:" + it[1]); go(it[3]); out.append(EXIT_TOKEN[it[2]])
     go(prog)
     return out
+
+
+def manager_codes(world):
+    mc = {}
+
+    def go(items):
+        for it in items:
+            if it[0] == "build":
+                mc[it[1]] = it[2]
+            elif body_of(it) is not None:
+                go(body_of(it))
+    for a in world["actors"]:
+        go(a["prog"])
+    return mc
 
 
 def expectation(world):
@@ -182,6 +278,7 @@ def expectation(world):
     kinds = {a["id"]: a["kind"] for a in world["actors"]}
     init = {0: "f"}
     res = {}
+    mcode = manager_codes(world)
     for a in world["actors"]:
         out = []
         lifo = [True]
@@ -190,13 +287,30 @@ def expectation(world):
             for it in items:
                 k = it[0]
                 if k == "get": out.append((cur, {"ev": "get", "depth": depth}))
-                elif k == "arith": out.append((cur, {"ev": "arith", "op": it[1], "xi": it[2], "yi": it[3], "depth": depth}))
+                elif k == "arith": out.append((cur, {"ev": "arith", "op": it[1], "xi": it[2], "yi": it[3], "depth": depth,
+                                                     "kk": it[4] if len(it) > 4 else "pp"}))
                 elif k == "spawn":
                     out.append((cur, {"ev": "spawn", "depth": depth}))
                     init[it[1]] = "f" if kinds[it[1]] in ("thread", "loop") else cur
                 elif k in ("gopen", "gcloseat"):
                     lifo[0] = False
                     out.append((None, {"ev": k}))
+                elif k == "build":          # building a manager changes nothing, whatever is in force
+                    out.append((cur, {"ev": "build", "depth": depth}))
+                elif k == "mblock":         # inside: the code given when it was built; after: the value at ENTRY
+                    c = mcode[it[1]]
+                    out.append((c, {"ev": "enter", "how": "m-" + it[2], "depth": depth + 1}))
+                    go(it[3], c, depth + 1)
+                    out.append((cur, {"ev": "leave", "how": "m-" + it[2], "depth": depth + 1, "prop": False}))
+                elif k == "mstack":
+                    st = [cur]
+                    for m in it[1]:
+                        st.append(mcode[m])
+                        out.append((st[-1], {"ev": "enter", "how": "m-exitstack", "depth": depth + len(st) - 1}))
+                    go(it[2], st[-1], depth + len(it[1]))
+                    for _ in it[1]:
+                        st.pop()
+                        out.append((st[-1], {"ev": "leave", "how": "m-exitstack", "depth": depth + len(st), "prop": False}))
                 else:
                     out.append((it[1], {"ev": "enter", "how": it[2], "depth": depth + 1}))
                     go(it[3], it[1], depth + 1)
@@ -209,7 +323,8 @@ def expectation(world):
 
 
 def max_depth(prog):
-    return max([0] + [1 + max_depth(it[3]) for it in prog if it[0] == "block"])
+    return max([0] + [(len(it[1]) if it[0] == "mstack" else 1) + max_depth(body_of(it)) for it in prog
+                      if body_of(it) is not None])
 
 
 # ---------------------------------------------------------------------------------------------------
@@ -221,6 +336,7 @@ class Run:
         self.log = []
         self.crash = None
         self.abort = False
+        self.mgrs = {}          # manager objects built so far: ordinary objects, shared by all threads / tasks
         self.actors = {a["id"]: Actor(self, a) for a in world["actors"]}
 
     def execute(self, schedule):
@@ -332,8 +448,86 @@ class Actor:
                 self.turn(); g = self.gen_block(PYVAL[it[1]]); next(g); self.gens.append(g); self.obs()
             elif k == "gcloseat":
                 self.turn(); g = self.gens.pop(len(self.gens) - 1 - it[1]); g.close(); self.obs()
+            elif k == "build":
+                self.turn(); self.run.mgrs[it[1]] = self.dep(PYVAL[it[2]]); self.obs()
+            elif k == "mblock":
+                self.s_mblock(it)
+            elif k == "mstack":
+                self.s_mstack(it)
             else:
                 self.s_block(it)
+
+    def s_mblock(self, it):
+        """a block opened by ENTERING a manager object that was built earlier (possibly by another actor)"""
+        _, m, how, body, _prop = it
+        mgr = self.run.mgrs[m]
+        if how == "with":
+            self.turn()
+            with mgr:
+                self.obs()
+                self.s_items(body)
+                self.turn()
+            self.obs()
+        elif how == "withraise":
+            try:
+                self.turn()
+                with mgr:
+                    self.obs()
+                    self.s_items(body)
+                    self.turn()
+                    raise Boom()
+            except Boom:
+                self.obs()
+        elif how == "dunder":
+            self.turn(); mgr.__enter__(); self.obs()
+            self.s_items(body)
+            self.turn(); mgr.__exit__(None, None, None); self.obs()
+        elif how == "dunderexc":
+            self.turn(); mgr.__enter__(); self.obs()
+            self.s_items(body)
+            self.turn()
+            try:
+                raise Boom()
+            except Boom as e:
+                try:
+                    mgr.__exit__(type(e), e, e.__traceback__)
+                except Boom:
+                    pass
+            self.obs()
+        elif how == "stack":
+            from contextlib import ExitStack
+            with ExitStack() as st:
+                self.turn(); st.enter_context(mgr); self.obs()
+                self.s_items(body)
+                self.turn()
+            self.obs()
+        elif how == "deco":
+            def fn():
+                self.obs()
+                self.s_items(body)
+                self.turn()
+            wrapped = mgr(fn)               # the decorator form: @dependency(code) applied to fn
+            self.turn(); wrapped(); self.obs()
+        else:
+            raise KeyError(how)
+
+    def s_mstack(self, it):
+        """several pre-built managers entered through ONE ExitStack; callbacks in between observe each exit"""
+        from contextlib import ExitStack
+        _, ms, body = it
+
+        def between():
+            self.obs()
+            self.turn()
+        st = ExitStack()
+        for j, m in enumerate(ms):
+            self.turn(); st.enter_context(self.run.mgrs[m]); self.obs()
+            if j < len(ms) - 1:
+                st.callback(between)
+        self.s_items(body)
+        self.turn()
+        st.close()
+        self.obs()
 
     def s_block(self, b):
         _, tok, how, body, prop = b
@@ -454,8 +648,77 @@ class Actor:
                 await self.aturn(); g = self.gen_block(PYVAL[it[1]]); next(g); self.gens.append(g); self.obs()
             elif k == "gcloseat":
                 await self.aturn(); g = self.gens.pop(len(self.gens) - 1 - it[1]); g.close(); self.obs()
+            elif k == "build":
+                await self.aturn(); self.run.mgrs[it[1]] = self.dep(PYVAL[it[2]]); self.obs()
+            elif k == "mblock":
+                await self.a_mblock(it)
+            elif k == "mstack":
+                await self.a_mstack(it)
             else:
                 await self.a_block(it)
+
+    async def a_mblock(self, it):
+        _, m, how, body, _prop = it
+        mgr = self.run.mgrs[m]
+        if how == "with":
+            await self.aturn()
+            with mgr:
+                self.obs()
+                await self.a_items(body)
+                await self.aturn()
+            self.obs()
+        elif how == "withraise":
+            try:
+                await self.aturn()
+                with mgr:
+                    self.obs()
+                    await self.a_items(body)
+                    await self.aturn()
+                    raise Boom()
+            except Boom:
+                self.obs()
+        elif how == "dunder":
+            await self.aturn(); mgr.__enter__(); self.obs()
+            await self.a_items(body)
+            await self.aturn(); mgr.__exit__(None, None, None); self.obs()
+        elif how == "dunderexc":
+            await self.aturn(); mgr.__enter__(); self.obs()
+            await self.a_items(body)
+            await self.aturn()
+            try:
+                raise Boom()
+            except Boom as e:
+                try:
+                    mgr.__exit__(type(e), e, e.__traceback__)
+                except Boom:
+                    pass
+            self.obs()
+        elif how == "stack":
+            from contextlib import AsyncExitStack
+            async with AsyncExitStack() as st:
+                await self.aturn(); st.enter_context(mgr); self.obs()
+                await self.a_items(body)
+                await self.aturn()
+            self.obs()
+        else:
+            raise KeyError(how)
+
+    async def a_mstack(self, it):
+        from contextlib import AsyncExitStack
+        _, ms, body = it
+
+        async def between():
+            self.obs()
+            await self.aturn()
+        st = AsyncExitStack()
+        for j, m in enumerate(ms):
+            await self.aturn(); st.enter_context(self.run.mgrs[m]); self.obs()
+            if j < len(ms) - 1:
+                st.push_async_callback(between)
+        await self.a_items(body)
+        await self.aturn()
+        await st.aclose()
+        self.obs()
 
     async def a_block(self, b):
         _, tok, how, body, prop = b
@@ -576,8 +839,8 @@ def deep_prog(rng, pool, sync, d=4):
 def body_lists(prog):
     out = [prog]
     for it in prog:
-        if it[0] == "block":
-            out += body_lists(it[3])
+        if body_of(it) is not None:
+            out += body_lists(body_of(it))
     return out
 
 
@@ -589,8 +852,9 @@ def insert_spawn(rng, prog, child):
 def set_prop(rng, prog):
     """let an exception travel through several blocks: a `raise` block that is the last item of a `raise` block"""
     for it in prog:
+        if body_of(it) is not None:
+            set_prop(rng, body_of(it))
         if it[0] == "block":
-            set_prop(rng, it[3])
             if it[2] == "raise" and it[3] and it[3][-1][0] == "block" and it[3][-1][2] == "raise" and rng.random() < 0.6:
                 it[3][-1][4] = True
 
@@ -601,10 +865,76 @@ def ensure_nonempty(prog):
 
 
 def flatten_count(prog):
-    return sum(1 if it[0] != "block" else 2 + flatten_count(it[3]) for it in prog)
+    n = 0
+    for it in prog:
+        b = body_of(it)
+        n += 1 if b is None else (2 * len(it[1]) if it[0] == "mstack" else 2) + flatten_count(b)
+    return n
 
 
-def make_world(rng, pool, shape, per_actor):
+def exec_order_points(prog, stop):
+    """insertion points (list, index) that are executed before the item `stop` (identity) is reached"""
+    pts = []
+
+    def go(items):
+        for j, it in enumerate(items):
+            pts.append((items, j))
+            if it is stop:
+                return True
+            b = body_of(it)
+            if b is not None:
+                if go(b):
+                    return True
+                # positions after a finished block are appended by the next loop iteration
+        return False
+    found = go(prog)
+    return pts if found else None
+
+
+def defer(rng, world, p=0.5, next_m=None):
+    """turn some `with dependency(c):` blocks into managers BUILT earlier (anywhere earlier in the actor's own
+    execution order, or in the parent before it spawns this actor) and ENTERED where the block was"""
+    next_m = next_m or [0]
+    by_id = {a["id"]: a for a in world["actors"]}
+    for a in world["actors"]:
+        sync = a["kind"] in ("thread", "tothread")
+        blocks = []
+
+        def collect(items):
+            for it in items:
+                if it[0] == "block":
+                    blocks.append(it)
+                if body_of(it) is not None:
+                    collect(body_of(it))
+        collect(a["prog"])
+        for blk in blocks:
+            if rng.random() >= p:
+                continue
+            pts = None
+            if a["parent"] is not None and rng.random() < 0.45:
+                par = by_id[a["parent"]]
+                sp = [None]
+
+                def find(items):
+                    for it in items:
+                        if it[0] == "spawn" and it[1] == a["id"]:
+                            sp[0] = it
+                        elif body_of(it) is not None:
+                            find(body_of(it))
+                find(par["prog"])
+                pts = exec_order_points(par["prog"], sp[0]) if sp[0] is not None else None
+            if pts is None:
+                pts = exec_order_points(a["prog"], blk)
+            lst, j = rng.choice(pts)
+            m = next_m[0]
+            next_m[0] += 1
+            code, body = blk[1], blk[3]
+            blk[:] = ["mblock", m, rng.choice(SYNC_MHOWS if sync else ASYNC_MHOWS), body, False]
+            lst.insert(j, ["build", m, code])
+    return world
+
+
+def make_world(rng, pool, shape, per_actor, deferred=0.0):
     """shape: list of (kind, parent) for actors 0..n-1"""
     actors = []
     for i, (kind, parent) in enumerate(shape):
@@ -621,9 +951,12 @@ def make_world(rng, pool, shape, per_actor):
         actors.append({"id": i, "kind": kind, "parent": parent, "prog": prog})
     for a in actors[1:]:
         insert_spawn(rng, actors[a["parent"]]["prog"], a["id"])
+    world = {"actors": actors}
+    if deferred:
+        defer(rng, world, deferred)
     for a in actors:
         set_prop(rng, a["prog"])
-    return {"actors": actors}
+    return world
 
 
 SHAPES = {
@@ -787,19 +1120,23 @@ def check_run(ctx, pool, stream, world, schedule, seqs, exp, log, crash, reply):
             break
         if d["ev"] == "arith":
             op, xi, yi = d["op"], d["xi"], d["yi"]
+            kk = d.get("kk", "pp")
+            kn = {"p": "Pbox", "d": "DempsterShafer", "D": "Distribution", "v": "Interval"}
+            opnds = f"{kn[kk[0]]} {op} {kn[kk[1]]}"
             if ecode in UNKNOWN:
                 if res is None or res[0] != "err":
-                    ctx.fail({"call": "operator", "kind": "unknown-no-fail", "op": op, "code": ecode}, dict(case, actor=a, event_index=j),
-                             f"bare `{op}` under the unknown dependency {PYVAL[ecode]!r} returned a result instead of failing")
+                    ctx.fail({"call": "operator", "kind": "unknown-no-fail", "op": op, "code": ecode, "lkind": kk[0], "rkind": kk[1]},
+                             dict(case, actor=a, event_index=j),
+                             f"bare `{opnds}` under the unknown dependency {PYVAL[ecode]!r} returned a result instead of failing")
                     break
             else:
                 ref = pool.explicit(op, xi, yi, ecode)
                 if ref[0] == "ok" and res != ref:
                     which = [c for c in KNOWN if pool.explicit(op, xi, yi, c) == res]
-                    ctx.fail({"call": "operator", "kind": "operator-ne-method", "op": op, "code": ecode,
+                    ctx.fail({"call": "operator", "kind": "operator-ne-method", "op": op, "code": ecode, "lkind": kk[0], "rkind": kk[1],
                               "behaves_like": which[0] if which else ("raises" if res and res[0] == "err" else "other")},
                              dict(case, actor=a, event_index=j, got=js_res(res)),
-                             f"bare `{op}` inside dependency({ecode!r}) differs from the explicit method with {ecode!r}"
+                             f"bare `{opnds}` inside dependency({ecode!r}) differs from the explicit method (operands converted to p-boxes) with {ecode!r}"
                              + (f" (it equals the method with {which[0]!r})" if which else ""))
                     break
 
@@ -822,6 +1159,7 @@ def run(ctx: core.Check):
     rng = ctx.rng
     pool = Pool(rng)
     ctx.extra_cov["operands_distinguish_all_four_dependencies_for_every_operator"] = pool.distinguishing
+    snap0 = pool.snapshot()
     jobs = []          # (stream, world, schedule, seqs, exp)
 
     def add_world(stream, world, cap):
@@ -850,7 +1188,7 @@ def run(ctx: core.Check):
     # 2. operators: every op x every code inside a block (after a nested block has been left)
     for op in OPS:
         for code in KNOWN + list(UNKNOWN):
-            for (xi, yi) in pool.pairs[:2]:
+            for (xi, yi) in pool.pairs[:2] + [(pool.pairs[0][0], pool.pairs[0][0])]:   # incl. the SAME object on both sides
                 other = rng.choice([c for c in KNOWN if c != code])
                 prog = [["block", code, "exit", [["block", other, rng.choice(SYNC_HOWS), [["arith", op, xi, yi]], False],
                                                  ["arith", op, xi, yi]], False], ["arith", op, xi, yi]]
@@ -887,6 +1225,56 @@ def run(ctx: core.Check):
         prog.append(["get"])
         add_world("nonlifo", {"actors": [{"id": 0, "kind": "thread" if sync else "loop", "parent": None, "prog": prog}]}, 1)
 
+    # 7. operand kinds: every dependency-sensitive kind (Pbox, DempsterShafer, Distribution, Interval) on the right
+    #    of a p-box and on the left, inside blocks of every code incl. unknown ones; reference = the explicit method
+    #    on the operands converted to p-boxes
+    def one(kind, prog):
+        return {"actors": [{"id": 0, "kind": kind, "parent": None, "prog": prog}]}
+    k = 0
+    unk = list(UNKNOWN)
+    for (xi, yi) in pool.kpairs:
+        for op in pool.ops_for(xi, yi):
+            for code in KNOWN + [unk[k % len(unk)]]:
+                k += 1
+                if ctx.tier != "thorough" and k % 2 and pool.kk(xi, yi) not in ("pd", "pD", "pv", "Dp"):
+                    continue
+                ar = ["arith", op, xi, yi, pool.kk(xi, yi)]
+                other = KNOWN[(KNOWN.index(code) + 1) % 4] if code in KNOWN else "i"
+                prog = [["block", other, "exit", [["block", code, SYNC_HOWS[k % len(SYNC_HOWS)], [ar], False]], False]]
+                add_world("kinds", one("thread" if k % 3 else "loop", prog), 1)
+    # 8. manager objects BUILT before they are ENTERED
+    codes5 = KNOWN + ["u0"]
+    k = 0
+    for sync in (True, False):
+        mh = SYNC_MHOWS if sync else ASYNC_MHOWS
+        kind = "thread" if sync else "loop"
+        for c0, c1 in itertools.product(codes5, codes5):
+            for rep in range(ctx.scale(2, 8)):
+                k += 1
+                xi, yi = pool.pairs[k % len(pool.pairs)]
+                ar = ["arith", BARE[k % 5], xi, yi]
+                h0, h1 = mh[k % len(mh)], mh[(k // len(mh) + rep) % len(mh)]
+                # (a) both managers prepared up front, entered later, nested
+                prog = [["build", 0, c0], ["build", 1, c1], ["get"],
+                        ["mblock", 0, h0, [["get"], ["mblock", 1, h1, [["get"]], False], ar if k % 3 == 0 else ["get"]], False], ["get"]]
+                add_world("deferred", one(kind, prog), 1)
+                # (b) built inside a block of another code, entered after that block was left / inside a plain block
+                c2 = codes5[(k + rep) % 5]
+                prog = [["block", c2, rng.choice(SYNC_HOWS), [["build", 0, c0], ["get"]], False],
+                        ["block", c1, "exit", [["mblock", 0, h0, [["get"]], False], ar if k % 4 == 0 else ["get"]], False], ["get"]]
+                add_world("deferred", one(kind, prog), 1)
+            # (c) a prepared list entered through one ExitStack
+            c2 = codes5[k % 5]
+            prog = [["build", 0, c0], ["block", c2, "exit", [["build", 1, c1], ["build", 2, c2]], False], ["get"],
+                    ["block", c1, "exit", [["mstack", [0, 1, 2][: 2 + k % 2], [["get"]]], ["get"]], False], ["get"]]
+            add_world("deferred", one(kind, prog), 1)
+    # (d) built in one thread / task, entered in another; random programs with deferred entries, interleaved
+    for wi in range(ctx.scale(45, 400)):
+        stream = ["threads", "tasks", "mixed"][wi % 3]
+        shape = rng.choice(SHAPES[stream] + [[(SHAPES[stream][0][0][0], None)]])
+        per = rng.randint(3, 7 if len(shape) <= 2 else 5)
+        add_world("deferred-" + stream, make_world(rng, pool, shape, per, deferred=0.7), ctx.scale(12, 40))
+
     replies = core.model_batch("C16", [wire(s, seqs) for (_, _, s, seqs, _) in jobs])
     for (stream, world, s, seqs, exp), rep in zip(jobs, replies):
         nontriv = any(e not in (None, "f") for a in exp for e, _ in exp[a]) or stream == "nonlifo"
@@ -898,7 +1286,7 @@ def run(ctx: core.Check):
             ctx.bump("actor:" + a["kind"])
         ctx.bump("events", len(s))
         ctx.bump("depth:%d" % max(max_depth(a["prog"]) for a in world["actors"]))
-        if len(ctx.samples) < 6 and stream in ("threads", "tasks", "mixed", "nonlifo") and ctx.evaluations % 97 == 0:
+        if len(ctx.samples) < 8 and stream in ("threads", "tasks", "mixed", "nonlifo", "kinds", "deferred", "deferred-threads") and ctx.evaluations % 97 == 0:
             ctx.sample({"stream": stream, "world": world, "schedule": s, "model": rep,
                         "impl": [[a, tok_of(v), js_res(x)] for a, v, x in log]})
 
@@ -918,6 +1306,13 @@ def run(ctx: core.Check):
         else:
             ctx.tie_bad("dispatch", {"op": op, "code": code, "x": pool.desc[xi], "y": pool.desc[yi]}, js_res(impl), rep)
         ctx.bump("dispatch:" + (impl[1] if impl[0] == "err" else "value"))
+        # the named method inside a block of ANOTHER code must not look at the ambient setting
+        amb = (KNOWN + list(UNKNOWN))[(OPS.index(op) + xi + 3 * yi + len(code)) % 12]
+        inside = contextvars.Context().run(pool.explicit_inside, op, xi, yi, code, amb)
+        if inside != impl:
+            ctx.fail({"call": "method", "kind": "method-reads-ambient", "op": op, "code": code, "ambient": amb},
+                     {"stream": "dispatch", "op": op, "code": code, "ambient": amb, "x": pool.desc[xi], "y": pool.desc[yi]},
+                     f"explicit `{op}(…, {PYVAL[code]!r})` called inside `with dependency({PYVAL[amb]!r})` differs from the same call outside")
         if code in UNKNOWN and impl[0] != "err":
             ctx.fail({"call": "method", "kind": "unknown-no-fail", "op": op, "code": code},
                      {"stream": "dispatch", "op": op, "code": code, "x": pool.desc[xi], "y": pool.desc[yi]},
@@ -926,6 +1321,10 @@ def run(ctx: core.Check):
             ctx.fail({"call": "method", "kind": "known-fails", "op": op, "code": code, "err": impl[1]},
                      {"stream": "dispatch", "op": op, "code": code, "x": pool.desc[xi], "y": pool.desc[yi]},
                      f"explicit `{op}` with dependency {code!r} raised {impl[1]} on positive p-boxes")
+    # operands must not be overwritten by any of the calls above (they were used again and again)
+    if pool.snapshot() != snap0:
+        ctx.fail({"call": "operator", "kind": "operand-overwritten"}, {"stream": "all", "pool": pool.desc},
+                 "an operand p-box was modified in place by an arithmetic call")
 
 
 def replay(obj):
@@ -936,11 +1335,8 @@ def replay(obj):
         return 0
     core.stub_moments()
     import random
-    pool = Pool(random.Random(0), 0)
-    C, P, O = _repo()
-    pool.desc = c["pool"]
-    pool.box = [P.Staircase(left=l, right=r) for l, r in c["pool"]]
-    pool._explicit, pool._low = {}, {}
+    desc = [(["p", d[0], d[1]] if len(d) == 2 else d) for d in c["pool"]]
+    pool = Pool(random.Random(0), 0, desc=desc)
     world, s = c["world"], c["schedule"]
     kinds = {a["id"]: a["kind"] for a in world["actors"]}
     seqs = {a["id"]: flatten(a["prog"], kinds) for a in world["actors"]}
